@@ -91,6 +91,10 @@ void GlobalGraph::link(Graph::NodeId nodeA, Graph::NodeId nodeB, GlobalGraph::Ed
     linkInNodeStructure_(nodeB, nodeA, edgeID);
   }
   linkInEdgeStructure_(nodeA, nodeB, edgeID);
+
+  // the ids given out by link(nodeA, nodeB) must stay above every id in use
+  if (edgeID >= highestEdgeID_)
+    highestEdgeID_ = edgeID + 1;
 }
 
 vector<GlobalGraph::Edge> GlobalGraph::unlink(Graph::NodeId nodeA, Graph::NodeId nodeB)
